@@ -237,7 +237,8 @@ func (s *Schema) Check() []error {
 				// to each other?
 				var found bool
 				for _, invRel := range targetType.Rels {
-					if rel.FromName == invRel.ToName && rel.ToName == invRel.FromName {
+					if rel.FromName == invRel.ToName && rel.ToName == invRel.FromName &&
+						invRel.ToType == typ.Name {
 						found = true
 					}
 				}
